@@ -2,11 +2,18 @@ import RawPanelVerif.Base.Wire
 import RawPanelVerif.Model.Mono
 import RawPanelVerif.Model.GoRunes
 import RawPanelVerif.Spec.TextSpec
-/-! Driver glue for `text.*` records (C20). -/
+/-! Driver glue for `text.*` records (C20).
+
+* `text.case` — one string on three fresh images (fixed setter order).
+* `text.sess` — a whole call history on ONE image object in one record (the driver keeps no state between `text.*`
+  lines): setters in any order, metric queries, earlier texts, re-creation of the canvas, followed by a final case whose
+  three renderings `A`, `B`, `C` come from three objects with that same history.  The model (`Model/Mono.lean` text state)
+  answers every query from the current state; the Spec clauses are evaluated on the final case. -/
 namespace RawPanelVerif.Driver.Text
 open RawPanelVerif RawPanelVerif.Wire RawPanelVerif.Mono
 
 def toU8 (c : Canvas) : List UInt8 := c.bytes.toList.map (fun b => UInt8.ofNat b.toNat)
+def hexC (c : Canvas) : String := hexOfBytes (toU8 c)
 
 /-- the call sequence of one rendering -/
 def renderCase (W H : Nat) (font : Int) (prop : Bool) (spacing : Nat) (h v cx cy : Int) (s : List Nat) :
@@ -23,7 +30,145 @@ def renderCase (W H : Nat) (font : Int) (prop : Bool) (spacing : Nat) (h v cx cy
 def intList (xs : List Int) : String := if xs.isEmpty then "-" else ",".intercalate (xs.map toString)
 def parseIntList (s : String) : Option (List Int) := if s = "-" then some [] else (s.splitOn ",").mapM parseInt
 
-/-- `text.case font prop spacing h v cx cy dx dy W H str | sw lh lh1 segw segw1 A B C`
+/-- per line the widths of its glyphs, `6,6;-;4` -/
+def cwsTok (xs : List (List Int)) : String := ";".intercalate (xs.map intList)
+def parseCws (s : String) : Option (List (List Int)) := (s.splitOn ";").mapM parseIntList
+
+/-- `GetCharWidth` of every character of every line that is drawn (CR is skipped by the renderer) -/
+def glyphWidths (t : TextSt) (segs : List (List Nat)) : List (List Int) :=
+  segs.map (fun l => (l.filter (fun ch => ch ≠ 13)).map (fun ch => (charWidth t ch : Int)))
+
+def glyphCount (segs : List (List Nat)) : Nat :=
+  (segs.map (fun l => (l.filter (fun ch => ch ≠ 13)).length)).foldl max 0
+
+/-- the nine tokens `sw lh lh1 segw segw1 A B C cws` the model reports for a three-rendering case -/
+def caseTokens (tA tC : TextSt) (cA cB cC : Canvas) (s : List Nat) : String :=
+  let segs := lines s
+  s!"{strWidth tA s} {lineHeight tA} {lineHeight tC} {intList (segs.map (strWidth tA))} {intList (segs.map (strWidth tC))} {hexC cA} {hexC cB} {hexC cC} {cwsTok (glyphWidths tC segs)}"
+
+/-- Spec verdict on the implementation's nine tokens; `none` = the tokens do not parse (a panic text) -/
+def caseVerdict (W wib H : Nat) (cx cy dx dy h v : Int) (sp glyphs : Nat) (toks : List String) :
+    Option (Option String × Bool) :=
+  match toks with
+  | [_isw, ilh, ilh1, isegw, isegw1, a, b, c, cws] =>
+    match parseInt ilh, parseInt ilh1, parseIntList isegw, parseIntList isegw1, unhex a, unhex b, unhex c, parseCws cws with
+    | some ilh, some ilh1, some isegw, some isegw1, some a, some b, some c, some cws =>
+      let k : Spec.Text.Case := { W := W, wib := wib, H := H, cx := cx, cy := cy, dx := dx, dy := dy,
+                                  h := h, v := v, lh := ilh, lh1 := ilh1, segw := isegw, segw1 := isegw1,
+                                  spacing := sp, glyphs := glyphs, cws := cws }
+      some (Spec.Text.check k a b c, Spec.Text.unclipped k)
+    | _, _, _, _, _, _, _, _ => none
+  | _ => none
+
+def hsOf : Option String → String
+  | none => "H1"
+  | some cl => s!"H0:{cl}"
+
+/-! ## sessions on one image object -/
+
+def bytesBV (a : Array UInt8) : Array (BitVec 8) := a.map (fun b => BitVec.ofNat 8 b.toNat)
+
+/-- the bytes of a Go string → the `byte(rune)` sequence `range` yields -/
+def goStr (hex : String) : Option (List Nat) := do
+  let raw ← unhex hex
+  pure (GoRunes.runeBytes (raw.toList.map (·.toNat)))
+
+/-- one token of a `text.sess` record → the call it denotes -/
+def parseCall (tok : String) : Option TextCall :=
+  match tok.splitOn ":" with
+  | ["F", n, p] => do pure (.font (← parseInt n) (← parseBool p))
+  | ["Z", h, v] => do pure (.size (← parseInt h) (← parseInt v))
+  | ["P", s] => do pure (.spacing (← s.toNat?))
+  | ["W", b] => do pure (.wrap (← parseBool b))
+  | ["C", x, y] => do pure (.cursor (← parseInt x) (← parseInt y))
+  | ["K", b] => do pure (.color (← parseBool b))
+  | ["N", w, h] => do pure (.newImage (← w.toNat?) (← h.toNat?))
+  | ["B", w, h, bits] => do pure (.fromBytes (← w.toNat?) (← h.toNat?) (bytesBV (← unhex bits)))
+  | ["S", str] => do pure (.strWidth (← goStr str))
+  | ["L"] => pure .lineHeight
+  | ["G", ch] => do pure (.charWidth (← ch.toNat?))
+  | ["R", str] => do pure (.render (← goStr str))
+  | ["D", x, y, ch, col, bg, h, v] => do
+    pure (.drawChar (← parseInt x) (← parseInt y) (← ch.toNat?) (← parseBool col) (← parseBool bg) (← parseInt h) (← parseInt v))
+  | _ => none
+
+/-- the token the harness prints for a call made in state `st` that led to `st'` (`.` for calls without result) -/
+def callOut (st st' : Canvas × TextSt) : TextCall → String
+  | .strWidth s => toString (strWidth st.2 s)
+  | .lineHeight => toString (lineHeight st.2)
+  | .charWidth ch => s!"{charWidth st.2 ch}/{charStart st.2 ch}"
+  | .render _ => hexC st'.1
+  | .drawChar .. => hexC st'.1
+  | _ => "."
+
+def runOps (st : Canvas × TextSt) : List String → Option ((Canvas × TextSt) × List String)
+  | [] => some (st, [])
+  | tok :: rest => do
+    let call ← parseCall tok
+    let st' := applyCall st call
+    let (st'', os) ← runOps st' rest
+    pure (st'', callOut st st' call :: os)
+
+/-- `FillRect(0, 0, Width, Height, false)`: the harness clears the canvas before the final case (text state untouched) -/
+def blank (c : Canvas) : Canvas := fillRect c 0 0 c.geo.W c.geo.H false
+
+def joinOuts (fin : String) (outs : List String) : String :=
+  if outs.isEmpty then fin else fin ++ " " ++ " ".intercalate outs
+
+/-- `text.sess W H dx dy fin op…`: `NewImage(W,H)` on a fresh object, the calls `op…`, then the final case `fin`:
+`R:ord:cx:cy:str` (canvas cleared, wrap off, [`C`: size 1], metrics and `RenderText` at the cursor; `ord` = metrics before or
+after the rendering — no difference for the model) or `D:x:y:c:col:bg:h:v` (canvas cleared, `DrawChar` with explicit sizes;
+`C` with sizes 1,1 and the same text state). -/
+def sess (args : List String) (impl : String) : Option String :=
+  match args with
+  | W :: H :: dx :: dy :: fin :: ops => do
+    let W ← W.toNat?; let H ← H.toNat?; let dx ← parseInt dx; let dy ← parseInt dy
+    let ((c, t), outs) ← runOps (newCanvas W H, {}) ops
+    let it := impl.splitOn " "
+    match fin.splitOn ":" with
+    | ["R", _ord, cx, cy, str] =>
+      let cx ← parseInt cx; let cy ← parseInt cy; let s ← goStr str
+      let c0 := blank c
+      let tA := sessA t cx cy
+      let tB := sessA t (cx + dx) (cy + dy)
+      let tC := sessC t cx cy
+      let (cA, _) := renderText (c0, tA) s
+      let (cB, _) := renderText (c0, tB) s
+      let (cC, _) := renderText (c0, tC) s
+      let model := joinOuts (caseTokens tA tC cA cB cC s) outs
+      let segs := lines s
+      let tag := s!"B:sessR B:font{t.font}{if t.prop then "p" else "f"} B:lines{min segs.length 3}"
+      match caseVerdict c.geo.W c.geo.wib c.geo.H cx cy dx dy tA.tsH tA.tsV t.spacing (glyphCount segs) (it.take 9) with
+      | some (h, u) =>
+        let tag := s!"{tag} B:{if u then "unclipped" else "clipped"}"
+        pure (if impl = model then s!"EQ {hsOf h} {tag}" else s!"NE {hsOf h} {model} {tag}")
+      | none => pure s!"NE H0:panic {model} {tag}"
+    | ["D", x, y, ch, col, bg, h, v] =>
+      let x ← parseInt x; let y ← parseInt y; let ch ← ch.toNat?; let col ← parseBool col; let bg ← parseBool bg
+      let h ← parseInt h; let v ← parseInt v
+      let c0 := blank c
+      let cA := drawChar c0 t x y ch col bg h v
+      let cB := drawChar c0 t (x + dx) (y + dy) ch col bg h v
+      let cC := drawChar c0 t x y ch col bg 1 1
+      let model := joinOuts s!"{charWidth t ch} {lineHeight (setTextSize t 1 1)} {hexC cA} {hexC cB} {hexC cC}" outs
+      let tag := s!"B:sessD B:font{t.font}{if t.prop then "p" else "f"}"
+      match it.take 5 with
+      | [icw, icell, a, b, cc] =>
+        match parseInt icw, parseInt icell with
+        | some icw, some icell =>
+          -- the one-glyph case: sizes from the arguments, width and cell height as the object reports them
+          let toks := ["0", toString (v * icell), toString icell, toString (icw * h - h), toString (icw - 1), a, b, cc, toString icw]
+          match caseVerdict c.geo.W c.geo.wib c.geo.H x y dx dy h v 0 1 toks with
+          | some (hh, u) =>
+            let tag := s!"{tag} B:{if u then "unclipped" else "clipped"}"
+            pure (if impl = model then s!"EQ {hsOf hh} {tag}" else s!"NE {hsOf hh} {model} {tag}")
+          | none => pure s!"NE H0:panic {model} {tag}"
+        | _, _ => pure s!"NE H0:panic {model} {tag}"
+      | _ => pure s!"NE H0:panic {model} {tag}"
+    | _ => none
+  | _ => none
+
+/-- `text.case font prop spacing h v cx cy dx dy W H str | sw lh lh1 segw segw1 A B C cws`
 `str` = the bytes of the Go string handed to `RenderText` / `StrWidth` (any bytes: UTF-8 or not) -/
 def step (cmd : String) (args : List String) (impl : String) : String :=
   match cmd, args with
@@ -32,29 +177,21 @@ def step (cmd : String) (args : List String) (impl : String) : String :=
       let font ← parseInt font; let prop ← parseBool prop; let sp ← sp.toNat?
       let h ← parseInt h; let v ← parseInt v; let cx ← parseInt cx; let cy ← parseInt cy
       let dx ← parseInt dx; let dy ← parseInt dy; let W ← W.toNat?; let H ← H.toNat?
-      let raw ← unhex str
       -- `for _, char := range str { … byte(char) … }`
-      let s := GoRunes.runeBytes (raw.toList.map (·.toNat))
+      let s ← goStr str
       let (cA, tA) := renderCase W H font prop sp h v cx cy s
       let (cB, _) := renderCase W H font prop sp h v (cx + dx) (cy + dy) s
       let (cC, tC) := renderCase W H font prop sp 1 1 cx cy s
-      let sw := strWidth tA s
       let segs := lines s
-      let model := s!"{sw} {lineHeight tA} {lineHeight tC} {intList (segs.map (strWidth tA))} {intList (segs.map (strWidth tC))} {hexOfBytes (toU8 cA)} {hexOfBytes (toU8 cB)} {hexOfBytes (toU8 cC)}"
-      match impl.splitOn " " with
-      | [_isw, ilh, ilh1, isegw, isegw1, a, b, c] =>
-        match parseInt ilh, parseInt ilh1, parseIntList isegw, parseIntList isegw1, unhex a, unhex b, unhex c with
-        | some ilh, some ilh1, some isegw, some isegw1, some a, some b, some c =>
-          let glyphs := (segs.map (fun l => (l.filter (fun ch => ch ≠ 13)).length)).foldl max 0
-          let k : Spec.Text.Case := { W := W, wib := (W + 7) / 8, H := H, cx := cx, cy := cy, dx := dx, dy := dy,
-                                      h := tA.tsH, v := tA.tsV, lh := ilh, lh1 := ilh1, segw := isegw, segw1 := isegw1,
-                                      spacing := sp % 256, glyphs := glyphs }
-          let hs := match Spec.Text.check k a b c with | none => "H1" | some cl => s!"H0:{cl}"
-          let tag := s!"B:font{font}{if prop then "p" else "f"} B:{if Spec.Text.unclipped k then "unclipped" else "clipped"} B:lines{min segs.length 3}"
-          if impl = model then pure s!"EQ {hs} {tag}" else pure s!"NE {hs} {model} {tag}"
-        | _, _, _, _, _, _, _ => pure s!"NE H0:panic {model}"
-      | _ => pure s!"NE H0:panic {model}"
+      let model := caseTokens tA tC cA cB cC s
+      let tag := s!"B:font{font}{if prop then "p" else "f"} B:lines{min segs.length 3}"
+      match caseVerdict W ((W + 7) / 8) H cx cy dx dy tA.tsH tA.tsV (sp % 256) (glyphCount segs) (impl.splitOn " ") with
+      | some (hh, u) =>
+        let tag := s!"{tag} B:{if u then "unclipped" else "clipped"}"
+        if impl = model then pure s!"EQ {hsOf hh} {tag}" else pure s!"NE {hsOf hh} {model} {tag}"
+      | none => pure s!"NE H0:panic {model}"
     r.getD "ERR bad-record"
+  | "text.sess", args => (sess args impl).getD "ERR bad-record"
   | _, _ => "ERR bad-record"
 
 end RawPanelVerif.Driver.Text
